@@ -91,7 +91,7 @@ Proof.
     destruct (negb _); [intros H; inversion H; subst; apply Same; auto; exact I|].
     destruct (get_or_create c sid) as [s c1| |code] eqn:G; try (intros H; inversion H; subst; apply Same; auto; exact I).
     destruct (goc_vals _ _ _ _ G) as (V & T). intros H; inversion H; subst; apply Same; auto; exact I.
-  - intros H; inversion H; subst. apply Same; [| |exact I]; unfold local_open; destruct (sget sid (c_streams c)); reflexivity.
+  - intros H; inversion H; subst. apply Same; [| |exact I]; unfold local_open; destruct (negb (can_send c sid)); try reflexivity; destruct (sget sid (c_streams c)); try reflexivity; destruct (negb (Bool.eqb (client_initiated sid) (c_client c))); reflexivity.
   - (* Write *)
     unfold write. destruct S as (S1 & S2 & S3).
     pose proof (raise_limit_adv FT_MAX_DATA _ S1) as PD.
